@@ -44,9 +44,9 @@ E
       python3 - "$T/XalanTransformer/XalanTransformer.cpp" <<'E'
 import sys
 p = sys.argv[1]; s = open(p).read()
-old = "    m_transformer.m_stylesheetExecutionContext->reset();\n\n    m_transformer.reset();\n"
-assert s.count(old) == 1
-s = s.replace(old, "")
+i = s.index("XalanTransformer::EnsureReset::~EnsureReset()")
+j = s.index("}\n\n\n\nint\nXalanTransformer::doTransform", i)
+s = s[:i] + "XalanTransformer::EnsureReset::~EnsureReset()\n{\n" + s[j:]
 old2 = "        m_stylesheetExecutionContext->reset();\n\n// JIRA-451"
 assert s.count(old2) == 1
 open(p, 'w').write(s.replace(old2, "\n// JIRA-451"))
